@@ -100,7 +100,7 @@ def allowed_nodes(rows, method, min_size, mask):
     return out, fm
 
 
-def quotient_graph(rows, method, max_dist, min_size, mask):
+def quotient_graph(rows, method, max_dist, min_size, mask, inclusive=False):
     """fragment pair -> (d2, a, b): nearest allowed pair, kept when strictly closer than max_dist"""
     al, fm = allowed_nodes(rows, method, min_size, mask)
     best = {}
@@ -113,7 +113,8 @@ def quotient_graph(rows, method, max_dist, min_size, mask):
         if key not in best or v < best[key][0]:
             best[key] = (v, a['id'], b['id'])
     if max_dist is not None:
-        best = {k: e for k, e in best.items() if e[0] < max_dist * max_dist}
+        lim = max_dist * max_dist
+        best = {k: e for k, e in best.items() if (e[0] <= lim if inclusive else e[0] < lim)}
     return best, fm
 
 
@@ -358,7 +359,7 @@ def case_heal(ctx, case, be=None):
         ctx.oracle(nroots == 1, f'heal without limits left {nroots} roots {tag}', case)
     if case['max_dist'] is not None:
         for a, b in added_impl:
-            ctx.oracle(d2(byid[a], byid[b]) < case['max_dist'] ** 2,
+            ctx.oracle(d2(byid[a], byid[b]) <= case['max_dist'] ** 2,
                        f'heal added edge {a}-{b} of squared length {d2(byid[a], byid[b])}, max_dist={case["max_dist"]} {tag}', case)
     al, fm = allowed_nodes(rows, case['method'], case['min_size'], None if mask is None else set(mask))
     alset = {r['id'] for r in al}
@@ -372,6 +373,13 @@ def case_heal(ctx, case, be=None):
     frs = sorted(set(fm.values()))
     if len(frs) <= 6:
         qg, _ = quotient_graph(rows, case['method'], case['max_dist'], case['min_size'], None if mask is None else set(mask))
+        qgi, _ = quotient_graph(rows, case['method'], case['max_dist'], case['min_size'], None if mask is None else set(mask), inclusive=True)
+        if len(qgi) != len(qg):
+            # a candidate connection of length exactly max_dist: whether it may be used is the implementation's
+            # choice (the property only forbids LONGER edges); the correspondence above pins navis' choice (strict)
+            ctx.count('minimality_boundary_skipped', 1)
+            ctx.oracle(parent_map(x) == pm0 and coords_of(x) == co0, 'heal_skeleton(inplace=False) modified its input', case)
+            return
         best, need = min_spanning_total(frs, qg)
         tot = sum(math.sqrt(d2(byid[a], byid[b])) for a, b in added_impl)
         ctx.oracle(len(added_impl) == need,
@@ -634,7 +642,7 @@ def case_stitch(ctx, case, be=None):
     if case['max_dist'] is not None:
         for a, b in added:
             v = sum((scoord[a][q] - scoord[b][q]) ** 2 for q in range(3))
-            ctx.oracle(v < case['max_dist'] ** 2, f'stitch added edge {a}-{b} of squared length {v}, max_dist={case["max_dist"]} {tag}', case)
+            ctx.oracle(v <= case['max_dist'] ** 2, f'stitch added edge {a}-{b} of squared length {v}, max_dist={case["max_dist"]} {tag}', case)
     # connectors follow the map
     want_cn = sorted((c[0], remaps[j][c[1]]) for j, nn in enumerate(neurons) for c in nn['conns'])
     got_cn = sorted(zip(s.connectors.connector_id.values.tolist(), s.connectors.node_id.values.tolist())) if s.has_connectors else []
